@@ -30,6 +30,7 @@ import (
 	"verif/harness/lib/mediah"
 	"verif/harness/lib/refmodel"
 	"verif/harness/lib/rtppack/esgen"
+	"verif/harness/lib/sched"
 )
 
 // Timeouts installed through config.VerifTimeouts. Scenarios in which the
@@ -318,6 +319,10 @@ type requester interface {
 	verifyWire(sentAll, live []fakecam.Frame, push func() *fakecam.Frame) string
 	// release ends the requester's own connection to the server.
 	release()
+	// setFeed hands the requester a way to make the camera send one more frame
+	// while it waits for its answer (HTTP answers only leave the server once
+	// enough body bytes have accumulated).
+	setFeed(feed func())
 }
 
 type directRequester struct{}
@@ -338,13 +343,21 @@ func (directRequester) request(path string, arm func()) (outcome string, s *medi
 func (directRequester) verifyWire(sentAll, live []fakecam.Frame, push func() *fakecam.Frame) string {
 	return ""
 }
-func (directRequester) release() {}
+func (directRequester) release()            {}
+func (directRequester) setFeed(feed func()) {}
 
 func framesFor(sc *scenario) []fakecam.Frame {
 	if sc.frames != nil {
 		return sc.frames
 	}
-	return fakecam.SimpleFrames(sc.Initial+sc.Live+8, sc.Audio)
+	extra := 8
+	if sc.Mode == "rtsp" { // material to push the player connection's buffered tail out (up to a second)
+		extra = 60
+	}
+	if sc.Mode == "flv" { // the feeder needs material until the HTTP answer is flushed
+		extra = 800
+	}
+	return fakecam.SimpleFrames(sc.Initial+sc.Live+extra, sc.Audio)
 }
 
 // routeFor installs the route of a scenario and returns the request path, the
@@ -445,6 +458,7 @@ func runScenario(sc *scenario, rq requester) *result {
 	defer route.Del(pattern)
 
 	exp, _, _ := sc.expect()
+	rq.setFeed(func() { cam.Send(-1, 16, 0) })
 
 	// ---- the request
 	type ret struct {
@@ -489,6 +503,11 @@ func runScenario(sc *scenario, rq requester) *result {
 	}
 
 	var recs []*mediah.Rec
+	if r.outcome == "nil" && exp == either && sc.Mode != "direct" && sc.Mode != "" && media.Get(canon) != nil {
+		// the pull went through (the deviation was tolerable); it is the requester's
+		// container format that this stream cannot be converted to
+		r.outcome, res.outcome = "stream", "stream, but not in the requester's format"
+	}
 	if r.outcome == "stream" {
 		playPhase(res, sc, rq, cam, r.s, canon, wantURL, frames, &recs)
 	}
@@ -546,7 +565,9 @@ func playPhase(res *result, sc *scenario, rq requester, cam *fakecam.Camera, s *
 	}
 	// (2) the camera saw DESCRIBE for the reference URL; (3) credentials verify
 	conns := cam.Conns()
-	if len(conns) != 1 {
+	if len(conns) != 1 && (sc.Mode == "direct" || sc.Mode == "" || !racing) {
+		// (an RTSP player's DESCRIBE and PLAY each look the stream up: when the camera
+		// hangs up in between, the second look-up pulls again — that is the property)
 		res.failf("connection-count", "one request made %d connections to the camera", len(conns))
 	}
 	seenDescribe := false
@@ -569,6 +590,9 @@ func playPhase(res *result, sc *scenario, rq requester, cam *fakecam.Camera, s *
 	if !seenDescribe {
 		res.failf("describe-url", "a stream was produced but the camera never saw DESCRIBE: %s", renderConns(conns))
 	}
+	if racing && end == fakecam.AfterGarbage && sc.EndVariant%fakecam.GarbageVariants != 3 {
+		cam.Finish(-1, fakecam.AfterEOF, 0) // whether or not the garbage was tolerated, the end comes
+	}
 	if s == nil || racing {
 		return
 	}
@@ -579,7 +603,8 @@ func playPhase(res *result, sc *scenario, rq requester, cam *fakecam.Camera, s *
 		*recs = append(*recs, rec)
 		cids = append(cids, s.StartConsumeNoGopCache(rec, media.RTPPacket, "c20"))
 	}
-	first := sc.Initial
+	mediah.WaitFor(bound, func() bool { return cam.NextFrame(-1) >= min(sc.Initial, len(frames)) })
+	first := cam.NextFrame(-1) // the initial frames, plus what a feeding requester asked for
 	if first > len(frames) {
 		first = len(frames)
 	}
@@ -747,7 +772,7 @@ func cleanupChecks(res *result, sc *scenario, base baseline, cam *fakecam.Camera
 func followUp(res *result, sc *scenario, rq requester, id int, reqPath, canon string) {
 	config.VerifTimeouts(longNet, heartbeat)
 	base := takeBaseline()
-	frames := fakecam.SimpleFrames(12, false)
+	frames := fakecam.SimpleFrames(900, false)
 	cam, err := fakecam.Start(okScript(false, frames, 2))
 	if err != nil {
 		res.failf("harness", "follow-up camera did not start: %v", err)
@@ -758,6 +783,7 @@ func followUp(res *result, sc *scenario, rq requester, id int, reqPath, canon st
 	_, _, wantURL, pattern := routeFor(ok, id, cam.HostPort(), "u:p")
 	defer route.Del(pattern)
 	defer rq.release()
+	rq.setFeed(func() { cam.Send(-1, 16, 0) })
 	o, s, d := rq.request(reqPath, func() {})
 	if s == nil && o == "stream" {
 		s = media.Get(canon)
@@ -777,11 +803,13 @@ func followUp(res *result, sc *scenario, rq requester, id int, reqPath, canon st
 		rec := mediah.NewRec("follow-up")
 		recs = append(recs, rec)
 		s.StartConsumeNoGopCache(rec, media.RTPPacket, "c20")
-		live := frames[2:7]
+		mediah.WaitFor(bound, func() bool { return cam.NextFrame(-1) >= 2 })
+		first := cam.NextFrame(-1)
+		live := frames[first : first+5]
 		cam.Send(-1, len(live), 0)
 		if !waitLast(rec, len(live), string(live[len(live)-1].Data)) {
 			res.failf("no-fresh-pull", "follow-up consumer received %d of %d packets", rec.Len(), len(live))
-		} else if why := compareDelivery(rec.Got(), frames[:7], len(live)); why != "" {
+		} else if why := compareDelivery(rec.Got(), frames[:first+5], len(live)); why != "" {
 			res.failf("no-fresh-pull", "follow-up delivery: %s", why)
 		}
 	}
@@ -836,5 +864,179 @@ func sequential(sc *scenario, n int) *result {
 		cam.Finish(i, fakecam.AfterEOF, 0)
 	}
 	cleanupChecks(res, sc, base, cam, canon, nil, false)
+	return res
+}
+
+// ---------------------------------------------------------------- simultaneous first requests
+
+type concurrentCase struct {
+	Modes    []string `json:"modes"`    // one requester per entry: "direct" | "rtsp" | "flv"
+	Injected bool     `json:"injected"` // request k+1 runs entirely inside request k's window between the registry miss and the pull (getorcreate.missed)
+	Digest   bool     `json:"digest"`   // the camera challenges DESCRIBE once
+	Audio    bool     `json:"audio"`
+}
+
+func (c *concurrentCase) key() string {
+	return fmt.Sprintf("modes=%v injected=%v digest=%v audio=%v", c.Modes, c.Injected, c.Digest, c.Audio)
+}
+
+type concurrentResult struct {
+	result
+	pulls int
+	fired int
+}
+
+func concurrent(cc *concurrentCase) *concurrentResult {
+	res := &concurrentResult{}
+	id := nextID()
+	server().SetCacheGop(false)
+	config.VerifTimeouts(longNet, heartbeat)
+	base := takeBaseline()
+	sc := &scenario{Audio: cc.Audio, Creds: "right", User: "admin", Pass: "pw", Initial: 2}
+	if cc.Digest {
+		sc.Steps[fakecam.Describe] = fakecam.Behaviour{Kind: fakecam.Digest401, N: 1}
+	}
+	frames := fakecam.SimpleFrames(4000, cc.Audio)
+	cam, err := fakecam.Start(fakecam.Script{Steps: sc.Steps, User: sc.User, Pass: sc.Pass, SDP: mediah.SDP(esgen.H264, cc.Audio), Frames: frames, Initial: 2})
+	if err != nil {
+		res.failf("harness", "camera did not start: %v", err)
+		return res
+	}
+	defer cam.Close()
+	reqPath, canon, _, pattern := routeFor(sc, id, cam.HostPort(), "admin:pw")
+	defer route.Del(pattern)
+
+	n := len(cc.Modes)
+	rqs := make([]requester, n)
+	type ret struct {
+		outcome, detail string
+		s               *media.Stream
+	}
+	rets := make([]ret, n)
+	feedAll := func() {
+		for i := 0; i < cam.ConnCount(); i++ {
+			cam.Send(i, 16, 0)
+		}
+	}
+	allDirect := true
+	for i, m := range cc.Modes {
+		rqs[i] = requesterFor(m)
+		rqs[i].setFeed(feedAll)
+		if m != "direct" {
+			allDirect = false
+		}
+	}
+	defer func() {
+		for _, rq := range rqs {
+			rq.release()
+		}
+	}()
+	run := func(i int) {
+		o, s, d := rqs[i].request(reqPath, func() {})
+		rets[i] = ret{o, d, s}
+	}
+	finished := make(chan struct{})
+	if cc.Injected {
+		in := sched.New(3 * bound)
+		for k := 1; k < n; k++ {
+			k := k
+			in.Add(&sched.Directive{Point: "getorcreate.missed", Occ: k, Label: fmt.Sprintf("request %d", k+1),
+				Filter: func(o interface{}) bool { p, ok := o.(string); return ok && p == canon },
+				Do:     func() { run(k) }})
+		}
+		media.VerifSetSched(in.Hook)
+		go func() {
+			run(0)
+			in.Wait(3 * bound)
+			close(finished)
+		}()
+		defer func() { res.fired = in.FiredCount() }()
+	} else {
+		var wg sync.WaitGroup
+		start := make(chan struct{})
+		for i := 0; i < n; i++ {
+			wg.Add(1)
+			go func(i int) {
+				defer wg.Done()
+				<-start
+				run(i)
+			}(i)
+		}
+		close(start)
+		go func() { wg.Wait(); close(finished) }()
+	}
+	select {
+	case <-finished:
+	case <-time.After(4 * bound):
+		media.VerifSetSched(nil)
+		res.failf("requester-hangs", "simultaneous requests for %s did not all return within %v:\n%s", reqPath, 4*bound, stacksMatching("c20."))
+		cam.Close()
+		<-finished
+		return res
+	}
+	media.VerifSetSched(nil)
+	if cc.Injected {
+		// requests whose window was never reached (an earlier request had registered already) still have to run
+		for i := range rets {
+			if rets[i].outcome == "" {
+				run(i)
+			}
+		}
+	}
+	res.pulls = cam.ConnCount()
+	for i, r := range rets {
+		if r.outcome != "stream" {
+			res.failf("pull-fails", "simultaneous request %d (%s) against a healthy camera ended with %q %s; camera saw: %s", i+1, cc.Modes[i], r.outcome, r.detail, renderConns(cam.Conns()))
+		}
+	}
+	// exactly one registered stream
+	reg := media.Get(canon)
+	if reg == nil {
+		res.failf("none-registered", "after %d simultaneous requests nothing is registered under %s", n, canon)
+	}
+	if s, _ := media.Count(); s != base.streams+1 {
+		res.failf("registered-count", "after %d simultaneous requests media.Count() reports %d streams more than before, want 1", n, s-base.streams)
+	}
+	if allDirect && reg != nil {
+		found := false
+		for _, r := range rets {
+			if r.s == reg {
+				found = true
+			}
+		}
+		if !found {
+			res.failf("foreign-stream", "the registered stream is none of the streams handed to the requesters")
+		}
+		// streams that lost have no consumer: they are closed, and their pull ends with the next packet
+		feedAll()
+		open := func() int {
+			k := 0
+			for _, c := range cam.Conns() {
+				if !c.PeerClosed {
+					k++
+				}
+			}
+			return k
+		}
+		if !mediah.WaitFor(bound, func() bool { feedAll(); return open() == 1 }) {
+			res.failf("loser-not-released", "%d pulls were started for one path; %d camera connections are still open %v later (want 1: the registered stream's): %s", res.pulls, open(), bound, renderConns(cam.Conns()))
+		}
+		for i, r := range rets {
+			if r.s != nil && r.s != reg && media.VerifStatus(r.s) == media.StreamOK {
+				res.failf("loser-not-released", "the stream handed to request %d lost the registration but is still open", i+1)
+			}
+		}
+		if reg != nil && media.VerifStatus(reg) != media.StreamOK {
+			res.failf("registered-closed", "the stream registered under %s is closed", canon)
+		}
+	}
+	// the end: every camera connection ends, everything must be released
+	for _, rq := range rqs {
+		rq.release()
+	}
+	for i := 0; i < cam.ConnCount(); i++ {
+		cam.Finish(i, fakecam.AfterEOF, 0)
+	}
+	cleanupChecks(&res.result, sc, base, cam, canon, nil, false)
 	return res
 }
